@@ -39,7 +39,7 @@ try:
     else:
         shutil.copytree(os.path.join(src, "demo"), os.path.join(wt, "zz_seeded_demo"))
     run = meta["demo_run"]
-    run = run.replace("/tmp/wt/%sz" % prop, wt).replace("/tmp/wt/%sy" % prop, wt).replace("/tmp/wt/%sx" % prop, wt).replace("/tmp/wt/%s" % prop, wt).replace("<repo root>", wt)
+    run = run.replace("/tmp/wt/%sw" % prop, wt).replace("/tmp/wt/%sz" % prop, wt).replace("/tmp/wt/%sy" % prop, wt).replace("/tmp/wt/%sx" % prop, wt).replace("/tmp/wt/%s" % prop, wt).replace("<repo root>", wt)
     # 1. demo passes without the change (3 times)
     ok_clean = 0
     for i in range(3):
